@@ -29,6 +29,25 @@ Theorem C13_exactly_one :
 Proof. exact exactly_one. Qed.
 Print Assumptions C13_exactly_one.
 
+(* Exactly one, with the premise stated as a transport contract instead of a property of the
+   protocol's final state.  grun computes, from the stimuli, the resolved targets and the calls
+   the protocol made (dial accepted, open_substream accepted, carrier handed to a request future),
+   what the environment still owes: an answer to every accepted dial (ConnectionEstablished or
+   DialFailure), an answer to every accepted open_substream (SubstreamOpened, SubstreamOpenFailure,
+   or the ConnectionClosed of that peer), and for every carrier handed over either a terminal event
+   of its request or the passing of the request timeout since the hand-over / since the request
+   frame went out.  Once all of that is discharged, every accepted send_request has produced
+   exactly one terminal event carrying its id (unless the user asked to cancel it). *)
+Theorem C13_exactly_one_contract :
+  forall (cf : cfg) (evs : list ev) (r : N),
+    0 < tmo cf ->
+    let res := run cf (init_pst, init_env) evs in
+    discharged (grun cf g0 (run_steps cf (init_pst, init_env) evs)) ->
+    In (OSent r) (snd res) ->
+    terms r (snd res) = 1%nat \/ In r (cancel_reqs evs).
+Proof. exact exactly_one_contract. Qed.
+Print Assumptions C13_exactly_one_contract.
+
 (* The same under the weaker-looking premise "nothing is owed" (pending_dials and every
    peers[..].active empty); quiescent implies settled (Proofs.quiescent_settled). *)
 Theorem C13_exactly_one_settled :
@@ -81,18 +100,65 @@ Proof.
 Qed.
 Print Assumptions C13_payload.
 
+(* Matching payload, request direction.  If send_request(.., (len, tag), fallback fb) returned rid,
+   carrier c was handed to rid's future and a request frame (l, t) reached the remote end of c,
+   then that frame is the request given to send_request — or the fallback request when the
+   substream was negotiated with the fallback name.  Together with C13_payload: the response
+   delivered with rid is the one the remote supplied on the very carrier that carried rid's request. *)
+Theorem C13_request_wire :
+  forall (cf : cfg) (evs : list ev) pre p d (len tag : N) fb o tg post (rid c l t : N),
+    run_steps cf (init_pst, init_env) evs = pre ++ (ESend p d len tag fb, o, tg) :: post ->
+    In (OSent rid) o ->
+    In (OBind c rid) (outs_of (run_steps cf (init_pst, init_env) evs)) ->
+    In (OWire c l t) (outs_of (run_steps cf (init_pst, init_env) evs)) ->
+    (l, t) = (len, tag) \/ exists n fl ft, fb = Some (n, fl, ft) /\ (l, t) = (fl, ft).
+Proof. exact request_wire. Qed.
+Print Assumptions C13_request_wire.
+
+(* send_response_with_feedback: the feedback receiver gets () only in a step in which a response
+   frame went out on an inbound carrier. *)
+Theorem C13_feedback :
+  forall (cf : cfg) (evs : list ev) e o tg (irid : N),
+    In (e, o, tg) (run_steps cf (init_pst, init_env) evs) -> In (OFeed irid true) o ->
+    exists c l t, In (OWireR c l t) o.
+Proof. exact feedback_only_after_wire. Qed.
+Print Assumptions C13_feedback.
+
 (* The responder sees each inbound substream once: a stimulus that yields a RequestReceived is an
-   inbound request frame (len, tag) arriving on a carrier, it yields exactly that one event with
-   exactly those bytes, and no two such stimuli of a run are on the same carrier. *)
+   inbound request frame (len, tag) arriving on a carrier, it yields exactly that one RequestReceived (possibly followed by the
+   note which fallback name was negotiated) with exactly those bytes, and no two such stimuli of a run are on the same carrier. *)
 Theorem C13_responder_once :
   forall (cf : cfg) (evs : list ev),
     let steps := run_steps cf (init_pst, init_env) evs in
     NoDup (req_chans steps) /\
     forall e o tg irid p len tag,
       In (e, o, tg) steps -> In (OReq irid p len tag) o ->
-      exists k c, e = EInReq k len tag /\ tg = Some c /\ o = [OReq irid p len tag].
+      exists k c rest, e = EInReq k len tag /\ tg = Some c /\ o = OReq irid p len tag :: rest /\ has_req rest = false.
 Proof. exact responder_once. Qed.
 Print Assumptions C13_responder_once.
+
+(* The bounded event channel loses nothing: for every capacity and every interleaving of pushes
+   (only while there is room — otherwise the event loop stays parked) and pops by the user, the
+   events delivered, queued and still pending are, in this order, exactly the events produced, and
+   the queue never exceeds its capacity. *)
+Theorem C13_channel_nothing_lost :
+  forall (cap : nat) (o : list out) (ms : list rmove),
+    let st := relay_run cap o ms in
+    rl_delivered st ++ rl_queue st ++ rl_pending st = o /\ (length (rl_queue st) <= cap)%nat.
+Proof. exact relay_nothing_lost. Qed.
+Print Assumptions C13_channel_nothing_lost.
+
+(* dial() refused at once (NoAddressAvailable, TriedToDialSelf, TaskClosed, ...): the request
+   gets its single RequestFailed(Rejected(DialFailed(Some(_)))) in the same step and is queued
+   nowhere. *)
+Theorem C13_dial_refused_one_failure :
+  forall (s : pst) (p len tag : N) fb (ok : bool) (sid : N),
+    memN p (peers s) = false ->
+    snd (h_send s p true len tag fb ok false sid) = [OSent (next_rid s); OFail (next_rid s) E_DIAL_IMMEDIATE] /\
+    dials (fst (h_send s p true len tag fb ok false sid)) = dials s /\
+    active (fst (h_send s p true len tag fb ok false sid)) = active s.
+Proof. exact dial_refused_one_failure. Qed.
+Print Assumptions C13_dial_refused_one_failure.
 
 (* F-C13a on the unrepaired handler: two requests to peer 0 while it is being dialed, then the
    connection is established. Request 0 was handed out, is owed nowhere, was never answered and
@@ -110,23 +176,33 @@ Print Assumptions C13_unrepaired_refuted.
    both requests, both get their own response — supplied in the opposite order, each on its own
    carrier — and the run ends quiescent. *)
 Definition demo : list ev :=
-  [ESend 0 true 3 10; ESend 0 true 2 20; EEstablished 0 false 0; EOpened 0 1; EOpened 0 1;
-   ERespond 1 3 9; ERespond 0 2 7; EInOpen 0 1; EInReq 2 4 5].
+  [ESend 0 true 3 10 None; ESend 0 true 2 20 (Some (1, 5, 50)); EEstablished 0 false 0; EOpened 0 1 0; EOpened 0 1 1;
+   ERespond 1 3 9; ERespond 0 2 7; EInOpen 0 1 2; EInReq 2 4 5].
 Example demo_two_responses :
-  let res := run (mkCfg None 4 16 5000) (init_pst, init_env) demo in
-  filter (fun x => match x with OResp _ _ _ | OBind _ _ | OReq _ _ _ _ => true | _ => false end) (snd res)
-    = [OBind 0 0; OBind 1 1; OResp 1 3 9; OResp 0 2 7; OReq 2 0 4 5] /\
+  let res := run (mkCfg None 4 16 5000 false) (init_pst, init_env) demo in
+  filter (fun x => match x with OResp _ _ _ | OBind _ _ | OReq _ _ _ _ | OWire _ _ _ | OFbResp _ _ | OFbReq _ _ => true
+                                | _ => false end) (snd res)
+    = [OBind 0 0; OWire 0 3 10; OBind 1 1; OWire 1 5 50; OResp 1 3 9; OFbResp 1 1; OResp 0 2 7; OReq 2 0 4 5; OFbReq 2 2] /\
   dials (fst (fst res)) = [] /\ pouts (fst (fst res)) = [] /\ futs (fst (fst res)) = [] /\
-  req_chans (run_steps (mkCfg None 4 16 5000) (init_pst, init_env) demo) = [2].
+  req_chans (run_steps (mkCfg None 4 16 5000 false) (init_pst, init_env) demo) = [2].
 Proof. vm_compute. repeat split. Qed.
 
 (* Non-vacuity of the mixed case at connection establishment: three requests wait for the dial,
    the connection's command channel takes two substream-open commands, the third attempt fails at
    once; then the connection closes. Every request gets its single failure. *)
 Example demo_partial_open :
-  let res := run (mkCfg None 4 16 5000) (init_pst, init_env)
-                 [ESend 0 true 1 1; ESend 0 true 1 2; ESend 0 true 1 3; EEstablished 0 false 2; EClosed 0] in
+  let res := run (mkCfg None 4 16 5000 false) (init_pst, init_env)
+                 [ESend 0 true 1 1 None; ESend 0 true 1 2 None; ESend 0 true 1 3 None; EEstablished 0 false 2; EClosed 0] in
   filter (fun x => match x with OFail _ _ => true | _ => false end) (snd res)
     = [OFail 2 E_SUBSTREAM; OFail 0 E_CONN_CLOSED; OFail 1 E_CONN_CLOSED] /\
   quiescent (fst (fst res)).
 Proof. vm_compute. repeat split. Qed.
+
+(* Non-vacuity of the contract premise: after the demo dialogue the environment owes nothing;
+   after its first five stimuli it still owes two answers (or the timeout). *)
+Example demo_discharged :
+  discharged (grun (mkCfg None 4 16 5000 false) g0 (run_steps (mkCfg None 4 16 5000 false) (init_pst, init_env) demo)) /\
+  g_live (grun (mkCfg None 4 16 5000 false) g0
+               (run_steps (mkCfg None 4 16 5000 false) (init_pst, init_env) (firstn 5 demo)))
+    = [(0, 0, 5000); (1, 1, 5000)].
+Proof. split; [|vm_compute; reflexivity]. vm_compute. repeat split. intros x []. Qed.
